@@ -9,10 +9,15 @@
      1607 count.load (drain) 1608 each values[i].load (Drain::next)
      1609 count.store(0) (Drain::drop)                  1610 unlock
      1611 use_primary.load   1612 count.load            (is_empty)
-   A thread runs a list of [op]s (Model.v).  Ghost state (never read by control flow):
-   [infl_p]/[infl_s] = pushes that loaded use_primary = primary/secondary and have not finished,
-   [late] = some 1606 step retired a side while a push was in flight on it (the pattern of the
-   open known finding C16-late-push).                                                          *)
+   A thread runs a list of [op]s (Model.v).  Ghost state (never read by control flow), per side:
+     [fl]  = ids of the threads whose push loaded use_primary = this side (1601) and has not
+             finished its store step (1603): the pushes *in flight* on the side;
+     [led] = the ledger: the values of the pushes whose fetch_add (1602) landed on the side since
+             its last count reset (1609), in fetch_add order;
+     [nst] = number of pushes that started (1601) on the side since its last count reset;
+   and [late] = some 1606 step retired a side while a push was in flight on it (the pattern of the
+   open known finding C16-late-push), [glog] = every completed drain with the ledger of its side
+   at the moment it read the count (1607).                                                      *)
 From Coq Require Import List NArith Bool.
 Import ListNotations.
 Require Import MV.Common.Interleave MV.C16.Model.
@@ -27,27 +32,23 @@ Inductive pc :=
 | K5 (k : option N)
 | K6 (k : option N) (up : bool)
 | K7 (k : option N) (up : bool)
-| K8 (sd : bool) (n len take i : N) (acc : list N)
-| K9 (sd : bool) (n len : N) (acc : list N)
-| K10 (d : drained)
+| K8 (sd : bool) (n len take i : N) (acc : list N) (W : list N)
+| K9 (sd : bool) (n len : N) (acc : list N) (W : list N)
+| K10 (d : drained) (W : list N)
 | E11
 | E12 (up : bool)
 | Done.
 
 Record local := { me : N; pcl : pc; todo : list op; results : list mout (* newest first *) }.
-Record shared := { prim : reservoir; sec : reservoir; usep : bool; lock : option N;
-                   infl_p : N; infl_s : N; late : bool }.
+Record sidest := { res : reservoir; led : list N; fl : list N; nst : N }.
+Record shared := { sp : sidest; ss : sidest; usep : bool; lock : option N;
+                   late : bool; glog : list (drained * list N) }.
 
-Definition side (s : shared) (sd : bool) : reservoir := if sd then prim s else sec s.
-Definition set_side (s : shared) (sd : bool) (r : reservoir) : shared :=
+Definition side (s : shared) (sd : bool) : sidest := if sd then sp s else ss s.
+Definition set_side (s : shared) (sd : bool) (x : sidest) : shared :=
   if sd
-  then {| prim := r; sec := sec s; usep := usep s; lock := lock s; infl_p := infl_p s; infl_s := infl_s s; late := late s |}
-  else {| prim := prim s; sec := r; usep := usep s; lock := lock s; infl_p := infl_p s; infl_s := infl_s s; late := late s |}.
-Definition infl (s : shared) (sd : bool) : N := if sd then infl_p s else infl_s s.
-Definition add_infl (s : shared) (sd : bool) (up : bool) : shared :=
-  let f x := if up then x + 1 else x - 1 in
-  {| prim := prim s; sec := sec s; usep := usep s; lock := lock s;
-     infl_p := if sd then f (infl_p s) else infl_p s; infl_s := if sd then infl_s s else f (infl_s s); late := late s |}.
+  then {| sp := x; ss := ss s; usep := usep s; lock := lock s; late := late s; glog := glog s |}
+  else {| sp := sp s; ss := x; usep := usep s; lock := lock s; late := late s; glog := glog s |}.
 
 Definition enter (m : N) (td : list op) (rs : list mout) : local :=
   match td with
@@ -65,58 +66,65 @@ Definition store_step (r : reservoir) (idx v c : N) : reservoir * pres :=
   if idx <? capacity r then (store r idx v, PFill)
   else let j := c mod (idx + 1) in ((if j <? capacity r then store r j v else r), PDraw (idx + 1)).
 
+Definition is_nil {A} (l : list A) : bool := match l with [] => true | _ => false end.
+Definition without (m : N) (l : list N) : list N := filter (fun x => negb (x =? m)) l.
+
 Definition step (s : shared) (l : local) : option (shared * local) :=
   match pcl l with
   | Start => Some (s, enter (me l) (todo l) (results l))
-  | P1 v c => Some (add_infl s (usep s) true, goto l (P2 (usep s) v c))
+  | P1 v c =>
+      let sd := usep s in let x := side s sd in
+      Some (set_side s sd {| res := res x; led := led x; fl := me l :: fl x; nst := nst x + 1 |}, goto l (P2 sd v c))
   | P2 sd v c =>
-      let r := side s sd in
-      Some (set_side s sd {| values := values r; count := count r + 1 |}, goto l (P3 sd (count r) v c))
+      let x := side s sd in let r := res x in
+      Some (set_side s sd {| res := {| values := values r; count := count r + 1 |}; led := led x ++ [v]; fl := fl x; nst := nst x |},
+            goto l (P3 sd (count r) v c))
   | P3 sd idx v c =>
-      let '(r', p) := store_step (side s sd) idx v c in
-      Some (add_infl (set_side s sd r') sd false, finish l (MPush p))
+      let x := side s sd in
+      let '(r', p) := store_step (res x) idx v c in
+      Some (set_side s sd {| res := r'; led := led x; fl := without (me l) (fl x); nst := nst x |}, finish l (MPush p))
   | K4 k =>
       match lock s with
       | Some _ => Some (s, l)                                   (* blocked: stutter *)
-      | None => Some ({| prim := prim s; sec := sec s; usep := usep s; lock := Some (me l);
-                         infl_p := infl_p s; infl_s := infl_s s; late := late s |}, goto l (K5 k))
+      | None => Some ({| sp := sp s; ss := ss s; usep := usep s; lock := Some (me l); late := late s; glog := glog s |},
+                      goto l (K5 k))
       end
   | K5 k => Some (s, goto l (K6 k (usep s)))
   | K6 k up =>
-      Some ({| prim := prim s; sec := sec s; usep := negb up; lock := lock s;
-               infl_p := infl_p s; infl_s := infl_s s; late := late s || (0 <? infl s up) |},
+      Some ({| sp := sp s; ss := ss s; usep := negb up; lock := lock s;
+               late := late s || negb (is_nil (fl (side s up))); glog := glog s |},
             goto l (K7 k up))
   | K7 k up =>
-      let r := side s up in
+      let x := side s up in let r := res x in
       let n := count r in
       let len := if capacity r <? n then capacity r else n in
       let take := match k with None => len | Some k' => N.min k' len end in
-      Some (s, goto l (if take =? 0 then K9 up n len [] else K8 up n len take 0 []))
-  | K8 sd n len take i acc =>
-      let acc' := acc ++ [nth (N.to_nat i) (values (side s sd)) 0] in
-      Some (s, goto l (if i + 1 <? take then K8 sd n len take (i + 1) acc' else K9 sd n len acc'))
-  | K9 sd n len acc =>
-      let r := side s sd in
-      Some (set_side s sd {| values := values r; count := 0 |},
-            goto l (K10 {| d_vals := acc; d_len := len; d_unsampled := n |}))
-  | K10 d =>
-      Some ({| prim := prim s; sec := sec s; usep := usep s; lock := None;
-               infl_p := infl_p s; infl_s := infl_s s; late := late s |}, finish l (MConsume d))
+      Some (s, goto l (if take =? 0 then K9 up n len [] (led x) else K8 up n len take 0 [] (led x)))
+  | K8 sd n len take i acc W =>
+      let acc' := acc ++ [nth (N.to_nat i) (values (res (side s sd))) 0] in
+      Some (s, goto l (if i + 1 <? take then K8 sd n len take (i + 1) acc' W else K9 sd n len acc' W))
+  | K9 sd n len acc W =>
+      let x := side s sd in let r := res x in
+      Some (set_side s sd {| res := {| values := values r; count := 0 |}; led := []; fl := fl x; nst := 0 |},
+            goto l (K10 {| d_vals := acc; d_len := len; d_unsampled := n |} W))
+  | K10 d W =>
+      Some ({| sp := sp s; ss := ss s; usep := usep s; lock := None; late := late s; glog := (d, W) :: glog s |},
+            finish l (MConsume d))
   | E11 => Some (s, goto l (E12 (usep s)))
-  | E12 up => Some (s, finish l (MEmpty (count (side s up) =? 0)))
+  | E12 up => Some (s, finish l (MEmpty (count (res (side s up)) =? 0)))
   | Done => None
   end.
 
 Definition site (l : local) : N :=
   match pcl l with
   | Start => 0 | P1 _ _ => 1601 | P2 _ _ _ => 1602 | P3 _ _ _ _ => 1603
-  | K4 _ => 1604 | K5 _ => 1605 | K6 _ _ => 1606 | K7 _ _ => 1607 | K8 _ _ _ _ _ _ => 1608
-  | K9 _ _ _ _ => 1609 | K10 _ => 1610 | E11 => 1611 | E12 _ => 1612 | Done => 0
+  | K4 _ => 1604 | K5 _ => 1605 | K6 _ _ => 1606 | K7 _ _ => 1607 | K8 _ _ _ _ _ _ _ => 1608
+  | K9 _ _ _ _ _ => 1609 | K10 _ _ => 1610 | E11 => 1611 | E12 _ => 1612 | Done => 0
   end.
 
+Definition side0 (cap : nat) : sidest := {| res := with_capacity cap; led := []; fl := []; nst := 0 |}.
 Definition init_shared (cap : nat) : shared :=
-  {| prim := with_capacity cap; sec := with_capacity cap; usep := true; lock := None;
-     infl_p := 0; infl_s := 0; late := false |}.
+  {| sp := side0 cap; ss := side0 cap; usep := true; lock := None; late := false; glog := [] |}.
 Definition init_local (m : N) (p : list op) : local := {| me := m; pcl := Start; todo := p; results := [] |}.
 Fixpoint init_locals (m : N) (ps : list (list op)) : list local :=
   match ps with [] => [] | p :: r => init_local m p :: init_locals (m + 1) r end.
